@@ -34,6 +34,8 @@ ASSUMPTIONS = [
 
 
 class ReadOnlyWorld(BufWorld):
+    write_probe_after_fault = False
+
     def __init__(self, *a, **kw):
         kw["check_frozen"] = False
         kw["check_resource"] = False
@@ -71,11 +73,28 @@ class ReadOnlyWorld(BufWorld):
         audit.start(self.dir)
         self.rebase()
 
-    def _s_setcap(self, s):
-        roots = self.roots()
-        if not roots or not self.ci.buffered:
+    def _s_remove(self, s):
+        """Someone else deletes the watched resource (objects keep what they loaded)."""
+        r = self.res[0]
+        if r.backend != "json" or r.raw() is None:
             return False
-        type(self.handles[roots[0]].real).set_buffer_capacity(s["n"])
+        # every object loads first (reads), so that all of them hold the same content afterwards;
+        # objects created later would see an empty collection, so none are created (see _s_new)
+        for i in self.roots():
+            if self.handles[i].res == 0:
+                self.handles[i].real()
+        self.verify(s)
+        self.removed = True
+        audit.stop()
+        os.remove(r.path)
+        audit.start(self.dir)
+        self.rebase()
+        self.events["removed_by_outsider"] += 1
+
+    def _s_new(self, s):
+        if s.get("r", 0) == 0 and getattr(self, "removed", False):
+            return False
+        return super()._s_new(s)
 
     def step(self, s):
         done = super().step(s)
@@ -156,6 +175,12 @@ def _gen_step(ci, dom, script=None):
                 return gen.draw_mutator(draw, w, draw(st.sampled_from(by)), dom, p_raise=0)
             if ci.buffered and c == 14:
                 return {"t": "setcap", "n": draw(st.sampled_from([0, 1, 2, 10, 10**9]))}
+            if ci.buffered and by and c == 16 and w.stack:
+                # the flush of the (modified) bystander fails at its k-th file-system call; afterwards
+                # sessions that only read must not write anything, to any file
+                return {"t": "exit", "fault_k": draw(st.integers(1, 4))}
+        if ci.backend == "json" and c == 17 and draw(st.booleans()):
+            return {"t": "remove"}
         if ci.backend == "json" and c == 15:
             return {"t": "reformat", "indent": draw(st.sampled_from([None, 1, 4]))}
         if ci.buffered:
@@ -222,6 +247,9 @@ def run_shard(spec, seed, tier, active):
             audit.stop()
         nt, kinds, shape, missing = _classify(w, init)
         cnt = {"missing_resource": int(missing), "with_context": int(bool(shape))}
+        cnt["resource_removed_by_outsider"] = w.events.get("removed_by_outsider", 0)
+        cnt["bystander_flush_failed"] = w.events.get("faulted_exit", 0)
+        cnt["read_only_sessions_after_failed_flush"] = w.events.get("aftermath_read_session", 0)
         for k in kinds:
             cnt["read." + k] = 1
         sample = {"class": ci.name, "initial": repr(init), "steps": w.log[:14]} if nt else None
